@@ -396,6 +396,8 @@ func init() {
 		"unicode.IsGraphic": unicodePred("IsGraphic", unicode.IsGraphic),
 		"unicode.IsControl": unicodePred("IsControl", unicode.IsControl),
 		"unicode.IsTitle":  unicodePred("IsTitle", unicode.IsTitle),
+		"unicode.IsSymbol": unicodePred("IsSymbol", unicode.IsSymbol),
+		"unicode.IsMark":   unicodePred("IsMark", unicode.IsMark),
 		"unicode.ToUpper":  unicodeMap("ToUpper", unicode.ToUpper),
 		"unicode.ToLower":  unicodeMap("ToLower", unicode.ToLower),
 		"unicode.ToTitle":  unicodeMap("ToTitle", unicode.ToTitle),
